@@ -177,7 +177,7 @@ func castUint(v string, t reflect.Type) (interface{}, error) {
 }
 
 func castFloat(v string, t reflect.Type) (interface{}, error) {
-	intV, err := strconv.ParseFloat(v, 64)
+	intV, err := strconv.ParseFloat(v, t.Bits())
 	if err != nil {
 		return 0.0, fmt.Errorf("'%s' cast to %s failed: %w", v, t, ErrCantCastVariableToTargetType)
 	}
